@@ -25,7 +25,7 @@ use crate::{
     driver::{Check, Keys, draw_faults},
     keys::CS,
     sim::{self, ExecEnd, Workload},
-    tables::{self, Backend, Mem, OVERHEAD, Peer, Shm, id_u64, trailer_seq},
+    tables::{self, Backend, Mem, OVERHEAD, Peer, Shm, trailer_seq},
 };
 
 pub struct C40;
